@@ -28,7 +28,7 @@ CLAIMED = {
  "C16": ("write-effect analysis of every scalar decoder, finite-outcome evaluation of the canonical and SetBigInt decisions (W1, D4)",
          "Static decision, for all byte strings, that no decoder writes the slice it is given (found and fixed DEF-2), that the canonical decoder accepts exactly Cmp(value,r) = -1 on the integer built from the input, and that SetBigInt's zero/direct shortcuts are taken only where they agree with reduction (all 9 outcomes). Mod/Montgomery arithmetic and byte-order tables (K4, pending) not decided here.",
          "4 C16, 3.1, 3.3 D4"),
- "C15": ("constant derivation with math/big from the modulus string, limb-alignment and carry-chain shape rules over the typed AST, write-effect analysis (K1, K2, W1; Z1/W5/asm rules added as built)",
+ "C15": ("constant derivation with math/big from the modulus string, limb-alignment and carry-chain shape rules over the typed AST, write-effect analysis, finite evaluation of the limb-wise comparisons on all 81 limb orderings (K1, K2, W1, O1; Z1/W5/asm rules added as built)",
          "Static decision that every modulus-derived constant in package fr (limbs of q, R, R^2, (q-1)/2+1, -q^-1, exponents, the Sqrt generator) equals the value computed from the decimal modulus in the role its context implies, that limb k meets limb k with the same operands in the same order in every carry chain, comparison cascade and Montgomery round, and that operands are never written. These are necessary conditions; the numeric correctness of CIOS, inversion, Tonelli-Shanks and of the assembly is not decided.",
          "4 C15, 3.5"),
  "C12": ("goroutine/channel/pool discipline over SSA: per-goroutine slot classification of every write of every spawned function, join-before-use must-pass, channel capacity/count agreement, commutative fan-in, captured-cell stores, pool use-after-Put; plus write-effect immutability of shared state (G1-G7, W2, W3)",
@@ -46,10 +46,10 @@ CLAIMED = {
  "C01": ("schedule extraction vs spec, parallel-index agreement, shape-check dominance, worker-split idiom recognition, join/channel agreement, index-domain type inference incl. compacted positions (F1,F2,F4,F6,S1,G2,G3,M6)",
          "Static decision, for every number of openings, evaluation-point pattern and CPU count, of the structural completeness clauses: prover and verifier replay the specified schedule; openings handled as aligned triples; every array indexed by an index of its own domain - in particular the inverse denominators by compacted position; the worker split is a ceil-division cover with clipped ranges and one receive per worker. The protocol algebra (that an honest proof satisfies the final equation) is not decided.",
          "4 C01, 3.2, 3.4 M6"),
- "C04": ("finite-outcome evaluation of the domain switch, initialiser/immutability of the bound, call/argument identity of the b-vector, verifier dominance rules (D4,B1,W2,F5,F6)",
+ "C04": ("finite-outcome evaluation of the domain switch, initialiser/immutability of the bound, call/argument identity of the b-vector, verifier dominance rules, index/range rules on the IPA vector helpers, table write coverage, 81-ordering evaluation of Cmp (D4,B1,W2,F5,F6,V1-V4,M7,O1)",
          "Static decision that the in-domain/out-of-domain switch happens exactly between 255 and 256 (barycentric branch iff Cmp = +1, bound = VectorLength-1, never written), that prover and verifier derive b from the same function of the same evaluation point with the unit vector at the regular-form index, and the IPA verifier's acceptance/shape structure. That the coefficients interpolate and wrong results are rejected is not decided.",
          "4 C04"),
- "C05": ("value-identity dataflow in the constructor, index agreement, guarded-decrement dominance, constant evaluation of window parameters, write-effect immutability (P1,M1,M5,K6,W1,W3)",
+ "C05": ("value-identity dataflow in the constructor, index agreement, guarded-decrement dominance, constant evaluation of window parameters, write-effect immutability, dependency analysis of the mixed addition formula (P1,M1,M5,M9,K6,K7,W1,W3)",
          "Narrow structural claim: the tables Commit uses are built from the published SRS, table i from point i, scalar i meets table i; every table index w-1 is guarded by w != 0 on the same value; window sizes divide 64 and the top window plus carry stays below half range; tables and configuration are immutable after construction. NOT decided: everything numeric - table contents, that the signed recoding sums to the scalar, mixed addition being the group law, linearity.",
          "4 C05"),
  "C07": ("exhaustive outcome evaluation of the Equal guard, operand identity of the cross products, edge-sensitive sign-convention and normalisation rules, decoder must-pass rules (E1-E4,D2,W1)",
@@ -61,7 +61,7 @@ CLAIMED = {
  "C11": ("field-provenance of the quotient operands, batch index agreement, callee-sequence agreement, length-guard dominance (N1,N2,U4,LG,W1)",
          "Static decision that both variants compute X/Y of the same element, read only X and Y (so the result is invariant under projective rescaling and (x,y)->(-x,-y) by structure), pair element i with inverse i and output i, convert with the same little-endian reducing pair, and reject a length mismatch before indexing. The numeric value and injectivity are not decided.",
          "4 C11"),
- "C17": ("abstract interpretation of the addition chain over exponents, symbolic evaluation of the curve equation, nil-propagation must-pass rules, finite-outcome sign selection (K5,Y1,Y2,D4,W1)",
+ "C17": ("abstract interpretation of the addition chain over exponents, symbolic evaluation of the curve equation, nil-propagation must-pass rules, finite-outcome sign selection, loop-exit/coverage rules on the dyadic reconstruction (K5,Y1,Y2,R1,D4,W1)",
          "Static decision that the chain computes z^((Q-1)/2), z^Q, z^((Q+1)/2) for the odd part Q of p-1 computed from the modulus constants, that BaseField2Adicity and the block parameters are consistent, that y^2=(A x^2-1)/(D x^2-1) is formed with A and D in the right places, that nil propagates exactly through GetPointFromX/computeY/SqrtPrecomp with zero for zero, that the requested root is returned on all four sign combinations, and that arguments are not written. The dyadic discrete-log reconstruction (table contents) - hence 'nil exactly for non-residues' as a value statement - is not decided.",
          "4 C17, 3.5 K5"),
  "C18": ("affine-form layout comparison of table writers and readers, index-domain typing, operand-orientation and self-term dataflow rules, sign-outcome evaluation (M7,M6,Q1,Q2,D4,W1,W3)",
